@@ -27,7 +27,7 @@
 (* Property C17 is written at the end as an abstract round machine per     *)
 (* decision id (ghost value rd) and predicates over one step.              *)
 (***************************************************************************)
-EXTENDS Integers, Sequences, FiniteSets, TLC
+EXTENDS Integers, Sequences, FiniteSets, TLC, MainChainBallot      \* MainChainBallot: common/vote.go
 
 CONSTANTS
   InitAlpha,   \* the stored Alphabet list at deployment (sequence of key names)
@@ -44,10 +44,6 @@ CONSTANTS
 
 Nil    == "nil"
 BadKey == "bad"
-Window == 20                       \* common/vote.go: blockDiff
-
-Ran(s) == {s[i] : i \in 1..Len(s)}
-Thr(n)   == (n * 2) \div 3 + 1
 DelId(c) == "del:" \o c            \* sha256(key || "delete")
 AllIds   == Ids \cup {DelId(c) : c \in Cands}
 
@@ -65,36 +61,7 @@ Event(act, S, id, key, val, lst, cand, payee, amt, gap, res, ntf) ==
 (* common/ir.go InnerRingInvoker: the first stored key (list order) whose  *)
 (* witness the transaction carries, or nil                                 *)
 (***************************************************************************)
-Invoker(S) ==
-  IF \E i \in 1..Len(alpha) : alpha[i] \in S
-  THEN alpha[CHOOSE i \in 1..Len(alpha) : alpha[i] \in S /\ \A j \in 1..(i - 1) : alpha[j] \notin S]
-  ELSE Nil
-
-(***************************************************************************)
-(* common/vote.go                                                          *)
-(***************************************************************************)
-Live(B, h) == SelectSeq(B, LAMBDA b : h - b.h <= Window)
-
-IdxOf(B, id) ==
-  IF \E i \in 1..Len(B) : B[i].id = id
-  THEN CHOOSE i \in 1..Len(B) : B[i].id = id /\ \A j \in 1..(i - 1) : B[j].id # id
-  ELSE 0
-
-\* Vote(ctx, id, from): [n = returned count, bl = the stored list afterwards]
-VoteOp(B, h, id, from) ==
-  LET L == Live(B, h)
-      i == IdxOf(L, id)
-  IN  IF i # 0 /\ from \in Ran(L[i].voters)
-      THEN [n |-> Len(L[i].voters), bl |-> B]     \* early return: nothing is saved, expired ballots stay
-      ELSE IF i # 0
-      THEN [n  |-> Len(L[i].voters) + 1,
-            bl |-> [L EXCEPT ![i] = [id |-> id, voters |-> Append(L[i].voters, from), h |-> h]]]
-      ELSE [n |-> 1, bl |-> Append(L, [id |-> id, voters |-> <<from>>, h |-> h])]
-
-\* RemoveVotes(ctx, id): removes the first ballot with this id; `index` stays 0 when there is none
-RemoveVotes(B, id) ==
-  LET i == IF IdxOf(B, id) = 0 THEN 1 ELSE IdxOf(B, id)
-  IN  [j \in 1..(Len(B) - 1) |-> IF j < i THEN B[j] ELSE B[j + 1]]
+Invoker(S) == InvokerOf(alpha, S, Nil)
 
 (***************************************************************************)
 (* Result records                                                          *)
